@@ -183,6 +183,9 @@ class TomlConfigParser(ConfigFileParser):
                         result[key] = [str(i) for i in value]
                     elif value is None:
                         pass
+                    elif isinstance(value, bool):
+                        # 'true' / 'false', like the same word read from an INI file.
+                        result[key] = str(value).lower()
                     else:
                         result[key] = str(value)
                 break
